@@ -36,10 +36,13 @@ Definition fw_init (A : mat) : omat :=
   let n := length A in
   map (fun i => map (fun j => if (i =? j)%nat then Some 0 else if edge A i j then Some 1 else None)
                     (seq 0 n)) (seq 0 n).
-Definition fw_step (n : nat) (D : omat) (k : nat) : omat :=
-  map (fun i => map (fun j => omin2 (oent D i j) (oadd (oent D i k) (oent D k j))) (seq 0 n)) (seq 0 n).
+(* one round of Floyd-Warshall through vertex k, row by row *)
+Definition fw_step (D : omat) (k : nat) : omat :=
+  let rk := nth k D [] in
+  map (fun ri => let dik := nth k ri None in
+                 map (fun p => omin2 (fst p) (oadd dik (snd p))) (combine ri rk)) D.
 Definition hop_metric (A : mat) : omat :=
-  let n := length A in fold_left (fw_step n) (seq 0 n) (fw_init A).
+  fold_left fw_step (seq 0 (length A)) (fw_init A).
 
 (* ---------------------------------------------------------------- components *)
 Definition has_inf (D : omat) : bool :=
@@ -81,12 +84,62 @@ Definition restrict_both (D : omat) (vs : list nat) : omat :=
 Definition finish (warned : bool) (D : omat) : dm_result :=
   if has_inf D then DMValueError else DMOk warned (map (map oz) D).
 
+(* The part after shortest_path, as a function of its result D (so that theorems can treat
+   shortest_path / connected_components as oracles). *)
 (* intended behaviour: rows AND columns of the largest component *)
-Definition make_dm (A : mat) : dm_result :=
-  let D := hop_metric A in
+Definition make_dm_of (D : omat) : dm_result :=
   if has_inf D then finish true (restrict_both D (largest_component D)) else finish false D.
-
 (* pinned code (line 211): rows only *)
-Definition make_dm_legacy (A : mat) : dm_result :=
-  let D := hop_metric A in
+Definition make_dm_legacy_of (D : omat) : dm_result :=
   if has_inf D then finish true (restrict_rows D (largest_component D)) else finish false D.
+
+Definition make_dm (A : mat) : dm_result := make_dm_of (hop_metric A).
+Definition make_dm_legacy (A : mat) : dm_result := make_dm_legacy_of (hop_metric A).
+
+(* ---------------------------------------------------------------- gromov_hausdorff: pair / collection dispatch *)
+(* the estimate call made for the pair (i, j): whatever its RNG draws are *)
+Definition pair_est := nat -> nat -> mat -> mat -> option (Z * Z).
+
+Inductive gh_out :=
+| GHRaise                                   (* ValueError *)
+| GHPair (warned : bool) (lb ub : Z)        (* doubled bounds *)
+| GHColl (warned : bool) (lbs ubs : mat).
+
+Fixpoint oall {A} (l : list (option A)) : option (list A) :=
+  match l with
+  | [] => Some []
+  | None :: _ => None
+  | Some x :: t => match oall t with Some r => Some (x :: r) | None => None end
+  end.
+
+Definition dms (mk : mat -> dm_result) (As : list mat) : option (list (bool * mat)) :=
+  oall (map (fun A => match mk A with DMOk w D => Some (w, D) | DMValueError => None end) As).
+
+(* lbs[i, j], ubs[i, j] for i < j from estimate; lower triangle copied from the transpose;
+   diagonal left at the np.zeros value *)
+Definition cell (est : pair_est) (Ds : list mat) (i j : nat) : option (Z * Z) :=
+  if (i <? j)%nat then est i j (nth i Ds []) (nth j Ds [])
+  else if (j <? i)%nat then est j i (nth j Ds []) (nth i Ds [])
+  else Some (0, 0).
+
+Definition collect (est : pair_est) (Ds : list mat) : option (list (list (Z * Z))) :=
+  let n := length Ds in
+  oall (map (fun i => oall (map (fun j => cell est Ds i j) (seq 0 n))) (seq 0 n)).
+
+Definition gh_collection (mk : mat -> dm_result) (est : pair_est) (As : list mat) : gh_out :=
+  if (length As <? 2)%nat then GHRaise else
+  match dms mk As with
+  | None => GHRaise
+  | Some wds =>
+    match collect est (map snd wds) with
+    | None => GHRaise
+    | Some cells => GHColl (existsb fst wds) (map (map fst) cells) (map (map snd) cells)
+    end
+  end.
+
+Definition gh_pair (mk : mat -> dm_result) (est : pair_est) (AG AH : mat) : gh_out :=
+  match mk AG, mk AH with
+  | DMOk w1 DX, DMOk w2 DY =>
+    match est 0%nat 1%nat DX DY with Some (l, u) => GHPair (w1 || w2) l u | None => GHRaise end
+  | _, _ => GHRaise
+  end.
